@@ -401,47 +401,53 @@ def r3(prog, run):
     # R3b: inbound dispatch while TLS is required and the link is unencrypted
     rid2 = run.rule('C04.R3b', 'in handleElement, handing a received element to extensions (elementReceived) or to the stanza '
                                'fallback (handleStanza, which replies) is unreachable while TLS is required and the socket is unencrypted',
-                    floor=2)
+                    floor=4)
     fn = prog.fn(OC + '::handleElement')
     sinks = {OC + '::elementReceived': 'extensions (may reply)', OC + '::handleStanza': 'fallback error reply / stanza signals'}
     found = {fn.cname(n) for _, n in fn.calls()}
     if not set(sinks) <= found:
         raise AnalysisBroken('C04.R3b: handleElement no longer calls %s' % sorted(set(sinks) - found))
-    def custom(f, nid, st):
-        # abstract input: an element that is neither <stream:features/> nor in the stream namespace (any stanza)
-        bo = f.binop(nid)
-        if bo and bo[0] in ('==', '!='):
-            sides = [f.nodes[f.resolve(x)] for x in bo[1:]]
-            ns_call = any(x['k'] == 'call' and f.cname(x) == 'QDomNode::namespaceURI' for x in sides)
-            ns_stream = any(x['k'] == 'var' and x.get('name') == 'ns_stream' for x in sides)
-            if ns_call and ns_stream:
-                return (bo[0] == '!=',)
-        return None
-    ev = cfgx.Evaluator(fn, {**ORACLES,
-                             'QXmppConfiguration::streamSecurityMode': ('enum', 'QXmppConfiguration::TLSRequired'),
-                             'QXmppStreamFeatures::isStreamFeatures': False}, custom=custom)
+    # abstract hostile inputs: (a) a stanza in its ordinary namespace; (b) a stanza smuggled into the stream namespace (<stream:iq/>): only
+    # <stream:features/> and <stream:error/> may be looked at before TLS
+    def mk(in_stream_ns):
+        def custom(f, nid, st):
+            bo = f.binop(nid)
+            if bo and bo[0] in ('==', '!='):
+                sides = [f.nodes[f.resolve(x)] for x in bo[1:]]
+                ns_call = any(x['k'] == 'call' and f.cname(x) == 'QDomNode::namespaceURI' for x in sides)
+                ns_stream = any(x['k'] == 'var' and x.get('name') == 'ns_stream' for x in sides)
+                if ns_call and ns_stream:
+                    return ((bo[0] == '==') == in_stream_ns,)
+                tag_call = any(x['k'] == 'call' and f.cname(x) == 'QDomElement::tagName' for x in sides)
+                lits = [x.get('v') for x in sides if x['k'] == 'str']
+                if tag_call and lits and lits[0] in ('error', 'features'):
+                    return (bo[0] == '!=',)          # the hostile element is an <iq/>, neither error nor features
+            return None
+        return custom
+    for in_stream_ns, label in ((False, 'a stanza'), (True, 'a stanza sent in the stream namespace (<stream:iq/>)')):
+        ev = cfgx.Evaluator(fn, {**ORACLES,
+                                 'QXmppConfiguration::streamSecurityMode': ('enum', 'QXmppConfiguration::TLSRequired'),
+                                 'QXmppStreamFeatures::isStreamFeatures': False}, custom=mk(in_stream_ns))
 
-    def transfer(f, nid, st):
-        n = f.nodes[nid]
-        if n['k'] == 'call' and f.cname(n) in sinks and f.cname(n) not in st:
-            return tuple(sorted(st + (f.cname(n),)))
-        return None
-    exits, info = cfgx.explore(fn, (), transfer, lambda f, c, st: ev.ev(c, st))
-    run.paths += len(exits)
-    reached = {}
-    for st, path in exits.items():
-        for s in st:
-            reached.setdefault(s, path)
-    for s, why in sinks.items():
-        run.instance(rid2)
-        if s in reached:
-            run.violation(rid2, 'QXmppOutgoingClient::handleElement#' + s.split('::')[-1], fn.loc(),
-                          'with TLS required and an unencrypted socket a received element still reaches %s: %s; a stanza sent by the '
-                          'server before <starttls/> is processed and answered in clear' % (s.split('::')[-1], why),
-                          cfgx.describe_path(fn, reached[s]))
-        else:
-            run.ok(rid2, fn.loc(), '%s unreachable under TLSRequired && !encrypted' % s)
-
+        def transfer(f, nid, st):
+            n = f.nodes[nid]
+            if n['k'] == 'call' and f.cname(n) in sinks and f.cname(n) not in st:
+                return tuple(sorted(st + (f.cname(n),)))
+            return None
+        exits, info = cfgx.explore(fn, (), transfer, lambda f, c, st, ev=ev: ev.ev(c, st))
+        run.paths += len(exits)
+        reached = {}
+        for st, path in exits.items():
+            for s in st:
+                reached.setdefault(s, path)
+        for s, why in sinks.items():
+            run.instance(rid2)
+            if s in reached:
+                run.violation(rid2, 'QXmppOutgoingClient::handleElement#%s%s' % (s.split('::')[-1], '#stream-namespace' if in_stream_ns else ''), fn.loc(),
+                              'with TLS required and an unencrypted socket %s still reaches %s: %s; it is processed and answered in clear before <starttls/>'
+                              % (label, s.split('::')[-1], why), cfgx.describe_path(fn, reached[s]))
+            else:
+                run.ok(rid2, fn.loc(), '%s unreachable for %s under TLSRequired && !encrypted' % (s.split('::')[-1], label))
 
 # --------------------------------------------------------------------------- R4
 def r4(prog, run):
